@@ -149,6 +149,18 @@ Theorem each_path_reported_at_most_once (L : hashlib) decompress pgp_verify w l 
   assert_directory_verifies L decompress pgp_verify w l path pol lm = Ok (l', b, log) ->
   NoDup (map fst log).
 Proof.
-  intros Hw Hn Hr Hs H. eapply no_path_reported_twice; [exact Hw|exact Hn|exact Hr| |exact H].
+  intros Hw Hn Hr Hs H. eapply no_path_reported_twice; [exact Hw|exact Hn|right; exact Hr| |exact H].
   intros l1 ed Hg. exact (entry_dict_wf L decompress pgp_verify w l path true l1 ed Hr Hs Hg).
+Qed.
+
+(* the same for the verification of the whole tree (start path ''), given that the dictionary is well-formed - its keys are
+   relative paths: the Manifests of a tree do not carry absolute paths (the parser rejects them, C09) *)
+Theorem each_path_reported_at_most_once_top (L : hashlib) decompress pgp_verify w l pol lm l' b log :
+  wf_world w -> nodup_world w ->
+  (forall l1 ed, get_file_entry_dict L decompress pgp_verify w l [] None true = Ok (l1, ed) -> dict_wf ed) ->
+  assert_directory_verifies L decompress pgp_verify w l [] pol lm = Ok (l', b, log) ->
+  NoDup (map fst log).
+Proof.
+  intros Hw Hn Hd H. eapply no_path_reported_twice; [exact Hw|exact Hn|left; reflexivity| |exact H].
+  intros l1 ed Hg. exact (Hd l1 ed Hg).
 Qed.
